@@ -11,7 +11,7 @@ for k in ("GOWORK", "GOTOOLCHAIN", "GOSUMDB"):
     ENV.pop(k, None)
 
 def run_one(m, args):
-    d = tempfile.mkdtemp(prefix="utlsmut.", dir="/root/scratch" if os.path.isdir("/root/scratch") else None)
+    d = tempfile.mkdtemp(prefix="utlsmut.", dir="/root/scratch-main")
     try:
         repo = os.path.join(d, "repo")
         subprocess.run(["rsync", "-a", "--exclude", ".git", REPO + "/", repo + "/"], check=True)
